@@ -7,10 +7,10 @@ package main
 // along the path; value = parsed text; everything else unset; unparsable => error).
 
 import (
-	"math"
-	"math/big"
 	"context"
 	"fmt"
+	"math"
+	"math/big"
 	"os"
 	"reflect"
 	"sort"
